@@ -774,11 +774,18 @@ def gen_c19(rng, tier):
         cases.append(dict(id=f'large-with-late-callers-{i}', exporters=1, compression=rng.choice(['', 'zstd']), factory=False, workers=4, batches=1,
                           points=[5], points_by_worker=[[250000 + rng.below(100000)], [5], [4], [3]], batches_by_worker=[1, 1, 1, 1],
                           sleep_us=[0], late_callers=True, seed=rng.below(1000), family='large-with-late-callers'))
-    # two multi-megabyte batches in a row on one stream, then small ones (a chunk cut into several gRPC
-    # messages must not disturb the next chunk), data that compresses badly
+    # two batches of several frames each in a row on one uncompressed stream, then small ones: frames closed
+    # by the frame size limit must fit a gRPC message; a chunk cut into several gRPC messages must not disturb
+    # the next chunk
     for i in range(1 if tier == 'quick' else 3):
         cases.append(dict(id=f'two-large-{i}', exporters=1, compression=rng.choice(['', '']), factory=False, workers=1 + i % 2, batches=4,
-                          points=[60000 + rng.below(20000), 60000 + rng.below(20000), 7, 3], sleep_us=[0], seed=rng.below(1000), family='two-large'))
+                          points=[150000 + rng.below(40000), 130000 + rng.below(40000), 7, 3], sleep_us=[0], seed=rng.below(1000), family='two-large'))
+    # dense-large: the same with data of which nearly every accounted bit is a byte on the wire (integer
+    # attributes, random timestamps and values), so that a frame closed by the size limit is as large as the
+    # limit lets it be; it must still fit one gRPC message of the receiver's default limit
+    for i in range(1 if tier == 'quick' else 3):
+        cases.append(dict(id=f'dense-large-{i}', exporters=1, compression='', factory=False, workers=1, batches=3, dense=True,
+                          points=[225000 + rng.below(60000), 7, 3], sleep_us=[0], seed=rng.below(1000), family='dense-large'))
     for i in range((40 if tier == 'quick' else 240)):
         fam = ['single', 'concurrent', 'multi', 'spread', 'factory'][i % 5]
         c = dict(id=f'{fam}-{i}', exporters=1, compression=rng.choice(['', 'zstd']), factory=False, workers=1, batches=1 + rng.below(5),
